@@ -225,3 +225,30 @@ M('C12', 'c12-initial-unsimplified', [("frontends/tui/arguments.py", "          
 M('C12', 'c12-controller-matchers-swapped', [('main.py', "Controller(output, connection_list, args.filter_matcher, args.stop_matcher)", "Controller(output, connection_list, args.stop_matcher, args.filter_matcher)")], 'C12.3')
 M('C12', 'c12-as-list-wraps-negative', [(MAT, "        return MatcherList([matcher], [])", "        return MatcherList([], [matcher])")], 'C12.4')
 V('C12', 'c12v-old-truthiness-explicit', [(CTL, "            return old if old is not None else matcher.never", "            if old is None:\n                return matcher.never\n            return old")])
+
+# ---- C07 -----------------------------------------------------------------------------------------
+PRO = 'core/wl/protocol.py'
+M('C07', 'c07-version-flipped', [(PRO, "if not existing or existing.version < interface.version:", "if not existing or existing.version > interface.version:")], 'C07.3')
+M('C07', 'c07-last-loaded-wins', [(PRO, "if not existing or existing.version < interface.version:", "if True:")], 'C07.3')
+M('C07', 'c07-first-loaded-wins', [(PRO, "if not existing or existing.version < interface.version:", "if not existing:")], 'C07.3')
+M('C07', 'c07-index-plus-one', [(PRO, "    arg = arg_list[arg_index]\n", "    arg = arg_list[arg_index - 1]\n")], 'C07.4')
+M('C07', 'c07-index-off-in-arg', [(ARG, "self.name = protocol.get_arg_name(message.obj.type, message.name, index)", "self.name = protocol.get_arg_name(message.obj.type, message.name, index + 1)")], 'C07.4')
+M('C07', 'c07-no-super-in-null', [(ARG, "            super().resolve(conn, message, index)\n            if self.type is None and message.obj.type is not None:", "            if self.type is None and message.obj.type is not None:")], 'C07.5')
+M('C07', 'c07-bitfield-eq', [(PRO, "            if entry.value & arg_value:", "            if entry.value == arg_value:")], 'C07.6')
+M('C07', 'c07-enum-intersects', [(PRO, "            if entry.value == arg_value:\n                entries.append(entry.name)\n    if entries", "            if entry.value & arg_value:\n                entries.append(entry.name)\n    if entries")], 'C07.6')
+M('C07', 'c07-fallbacks-swapped', [(PRO, "    elif enum.bitfield:\n        return ['(none)']\n    else:\n        return ['INVALID ENUM VALUE']", "    elif not enum.bitfield:\n        return ['(none)']\n    else:\n        return ['INVALID ENUM VALUE']")], 'C07.6')
+M('C07', 'c07-bad-hand-tag', [(PRO, "interfaces['xdg_toplevel'].messages['resize'].args['edges'].enum = 'resize_edge'", "interfaces['xdg_toplevel'].messages['resize'].args['edge'].enum = 'resize_edge'")], 'C07.1')
+M('C07', 'c07-bad-hand-enum', [(PRO, "interfaces['zwlr_foreign_toplevel_handle_v1'].messages['state'].args['state'].enum = 'state'", "interfaces['zwlr_foreign_toplevel_handle_v1'].messages['state'].args['state'].enum = 'states'")], 'C07.1')
+M('C07', 'c07-unknown-iface-raises', [(PRO, "    if not interface:\n        return None\n    message = interface.messages.get(message_name)", "    if not interface:\n        raise RuntimeError('unknown interface ' + interface_name)\n    message = interface.messages.get(message_name)")], 'C07.7')
+M('C07', 'c07-arg-fields-swapped', [(PRO, "        arg.attrib['name'],\n        arg.attrib['type'],", "        arg.attrib['type'],\n        arg.attrib['name'],")], 'C07.8')
+M('C07', 'c07-event-tag-typo', [(PRO, "        if node.tag == 'event' or node.tag == 'request':", "        if node.tag == 'events' or node.tag == 'request':")], 'C07.2')
+M('C07', 'c07-attr-typo', [(PRO, "arg.attrib.get('interface', None)", "arg.attrib.get('iface', None)")], 'C07')
+M('C07', 'c07-label-value-not-name', [(PRO, "            if entry.value == arg_value:\n                entries.append(entry.name)", "            if entry.value == arg_value:\n                entries.append(str(entry.value))")], 'C07.6')
+M('C07', 'c07-enum-of-other-arg', [(PRO, "    arg = get_arg(interface_name, message_name, arg_index)\n    if arg is None or arg.enum is None: return []", "    arg = get_arg(interface_name, message_name, 0)\n    if arg is None or arg.enum is None: return []")], 'C07.4')
+M('C07', 'c07-keyed-by-type', [(PRO, "            args[arg.name] = arg", "            args[arg.type] = arg")], 'C07.8')
+M('C07', 'c07-is-event-inverted', [(PRO, "message.tag == 'event', args)", "message.tag == 'request', args)")], 'C07.8')
+M('C07', 'c07-nil-type-unguarded', [(ARG, "            if self.type is None and message.obj.type is not None:\n                self.type = protocol.look_up_interface", "            if self.type is None:\n                self.type = protocol.look_up_interface")], 'C07.7')
+M('C07', 'c07-bitfield-yes', [(PRO, "    if bitfield_str == 'true':", "    if bitfield_str == 'yes':")], 'C07.2')
+V('C07', 'c07v-version-flipped-operands', [(PRO, "if not existing or existing.version < interface.version:", "if existing is None or interface.version > existing.version:")])
+V('C07', 'c07v-inline-arg-list', [(PRO, "    arg = arg_list[arg_index]\n    return arg", "    return arg_list[arg_index]")])
+V('C07', 'c07v-enum-nested', [(PRO, "        if enum.bitfield:\n            if entry.value & arg_value:\n                entries.append(entry.name)\n        else:\n            if entry.value == arg_value:\n                entries.append(entry.name)", "        if not enum.bitfield:\n            if entry.value == arg_value:\n                entries.append(entry.name)\n        elif entry.value & arg_value:\n            entries.append(entry.name)")])
